@@ -1,3 +1,5 @@
 SPECIFICATION Spec
+CONSTANTS
+  AsWas = FALSE
 POSTCONDITION Accepted
 CHECK_DEADLOCK FALSE
